@@ -584,7 +584,8 @@ pub fn run_encoder(ch: &mut Chooser, ctx: &mut Ctx) {
         since_reset: 0,
     };
 
-    let n_ops = 4 + ch.pick_usize("ops", 40);
+    // mostly short histories; one in twenty is long (many consecutive rounds and resets on one object)
+    let n_ops = if ch.chance("ops.long", 1, 20) { 60 + ch.pick_usize("ops.many", 240) } else { 4 + ch.pick_usize("ops", 40) };
     for op_no in 0..n_ops {
         if ctx.stop {
             return;
@@ -1183,7 +1184,8 @@ pub fn run_decoder(ch: &mut Chooser, ctx: &mut Ctx) {
     };
     let Some(mut st) = DecState::fresh(ch, ctx, kind, cfg, dec_need(kind, cfg), false) else { return };
 
-    let n_ops = 4 + ch.pick_usize("ops", 40);
+    // mostly short histories; one in twenty is long (many consecutive rounds and resets on one object)
+    let n_ops = if ch.chance("ops.long", 1, 20) { 60 + ch.pick_usize("ops.many", 240) } else { 4 + ch.pick_usize("ops", 40) };
     for op_no in 0..n_ops {
         if ctx.stop {
             return;
